@@ -105,8 +105,3 @@ func replayCodec(rp *proto.Replay, file string) int {
 	fmt.Fprintln(os.Stderr, "verif: replay node failed:", stderr)
 	return 2
 }
-
-func SelfTest(args []string) int {
-	fmt.Fprintln(os.Stderr, "selftest: not built yet")
-	return 2
-}
